@@ -2,10 +2,50 @@ import EinoV.Oracle.C04
 import EinoV.Model.C19
 import EinoV.Model.C19Merge
 import EinoV.Model.C19Route
+import EinoV.Model.C19Callbacks
 import EinoV.Expected.C19
 
 namespace EinoV.Oracle.C19
 open Lean EinoV EinoV.Engine EinoV.C04 EinoV.C19
+
+/-! the handler list of a case (see c19HandlerSet in harness/props/c19.go): `<kind>` | `=<i>` |
+    `g=<i>` | `g:<kind>`; per-run handlers first, then the global ones, as `On` lists them -/
+
+def cbNeeds (kind : String) (out : Bool) : Bool :=
+  if kind == "plain" then false
+  else if kind == "in-close" then !out
+  else if kind == "raw-close" then true
+  else out
+
+/-- (id, kind, global) of every entry -/
+def cbResolve (hs : List String) : List (Nat × String × Bool) :=
+  (hs.foldl (fun (acc : List (Nat × String × Bool)) e =>
+    let i := acc.length
+    let look (t : String) : Nat × String := match t.toNat? with
+      | some j => (match acc[j]? with | some (id, k, _) => (id, k) | none => (i, "plain"))
+      | none => (i, "plain")
+    if e.startsWith "g=" then let r := look (e.drop 2).toString; acc ++ [(r.1, r.2, true)]
+    else if e.startsWith "=" then let r := look (e.drop 1).toString; acc ++ [(r.1, r.2, false)]
+    else if e.startsWith "g:" then acc ++ [(i, (e.drop 2).toString, true)]
+    else acc ++ [(i, e, false)]) [])
+
+def cbOccs (hs : List String) (out : Bool) : List Cb.Occ :=
+  let r := cbResolve hs
+  ((r.filter (fun x => !x.2.2)) ++ (r.filter (fun x => x.2.2))).map
+    fun x => { id := x.1, needs := cbNeeds x.2.1 out }
+
+/-- the callback-copy ledger of one node's two streaming timings, with the expected facts -/
+def cbVerdict (c : Json) : List (String × Json) :=
+  let hs := (J.arrD c "handlers").filterMap (fun j => match j with | .str s => some s | _ => none)
+  let cr := Cb.CopyRule.ofFact Expected.C19.cbCopyCountExpr
+  let hr := Cb.HandRule.ofFact Expected.C19.cbHandLoop
+  let one (out : Bool) : Nat × Nat × Nat :=
+    let os := cbOccs hs out
+    ((Cb.copies cr os).getD 0, (Cb.handed hr os).length, (Cb.leaked cr hr os).getD 999)
+  let o := one true
+  let i := one false
+  [("cbCopiesOut", (o.1 : Nat)), ("cbHandedOut", (o.2.1 : Nat)), ("cbCopiesIn", (i.1 : Nat)),
+   ("cbHandedIn", (i.2.1 : Nat)), ("cbLeaked", ((o.2.2 + i.2.2 : Nat)))]
 
 /-- case: {"g": graph, "input": text, "inChunks": [...]} → the preconditions of C19 evaluated
     on the model's stream-mode run: {"ok", "dropped", "noConsumer", "surplus"} -/
@@ -19,9 +59,9 @@ def handleGraph (c : Json) : JE Json := do
   let noConsumer := info.tasks.filterMap (fun t => if t.2.1 + t.2.2.2 == 0 then some t.1 else none)
   let surplus := info.tasks.filterMap (fun t => if t.2.2.1 > t.2.2.2 then some t.1 else none)
   let ledgerLeak := (info.tasks.map (fun t => (distribute false false t.2.1 t.2.2.1 t.2.2.2 0).leaked)).sum
-  pure (Json.mkObj [("ok", Json.bool info.ok), ("dropped", J.mkStrs info.droppedAtEnd),
+  pure (Json.mkObj ([("ok", Json.bool info.ok), ("dropped", J.mkStrs info.droppedAtEnd),
     ("noConsumer", J.mkStrs noConsumer), ("surplus", J.mkStrs surplus),
-    ("leakWithoutClose", (ledgerLeak : Nat)), ("tasks", (info.tasks.length : Nat))])
+    ("leakWithoutClose", (ledgerLeak : Nat)), ("tasks", (info.tasks.length : Nat))] ++ cbVerdict c))
 
 /-- merge case: {"kind":"merge", "srcs":[{"len","pre"}], "recv":[source positions in the order the
     consumer received chunks], "eof": the consumer read to the end, "ordered": the positions are the
@@ -92,13 +132,13 @@ def handleWorkflow (c : Json) : JE Json := do
   let B := Route.nBranches wc
   let nsel := (Route.selectedEntries wc).length
   let dups := ((Route.selectedEntries wc).filter (·.replaced)).length
-  pure (Json.mkObj [("fates", J.mkStrs (fs.map Route.Fate.name)),
+  pure (Json.mkObj ([("fates", J.mkStrs (fs.map Route.Fate.name)),
     ("copies", (fs.length : Nat)),
     ("ledgerCreated", ((distribute routeFacts.closesSurplus routeFacts.closesReplaced W B nsel dups).created : Nat)),
     ("dropped", ((fs.filter Route.Fate.isDropped).length : Nat)),
     ("mustRelease", Json.bool (Route.mustRelease routeFacts wc)),
     ("mustFinish", Json.bool (Route.mustFinish routeFacts wc)),
-    ("noDataPreds", J.mkStrs (((Route.entries wc).filter (fun e => e.dps.isNone)).map (·.key)))])
+    ("noDataPreds", J.mkStrs (((Route.entries wc).filter (fun e => e.dps.isNone)).map (·.key)))] ++ cbVerdict c))
 
 def parseOrder : String → JE Route.Order
   | "value-first" => pure .valueFirst
@@ -129,7 +169,7 @@ def handleCross (c : Json) : JE Json := do
       consume := if consume < 0 then none else some consume.toNat }
   let fs := Route.xFates routeFacts xc
   let es := Route.xEntries xc
-  pure (Json.mkObj [("fates", J.mkStrs (fs.map Route.Fate.name)),
+  pure (Json.mkObj ([("fates", J.mkStrs (fs.map Route.Fate.name)),
     ("copies", (fs.length : Nat)),
     ("ledgerCreated", ((distribute routeFacts.closesSurplus routeFacts.closesReplaced es.length 0 0 0).created : Nat)),
     ("dropped", ((fs.filter Route.Fate.isDropped).length : Nat)),
@@ -137,7 +177,7 @@ def handleCross (c : Json) : JE Json := do
     ("mustFinish", Json.bool (Route.xMustFinish routeFacts xc)),
     ("inScope", Json.bool (Route.xInScope xc)),
     ("skippedBefore", J.mkStrs ((es.filter (fun e => e.skip == .before || e.skip == .either)).map (·.key))),
-    ("skippedAfter", J.mkStrs ((es.filter (fun e => e.skip == .after || e.skip == .either)).map (·.key)))])
+    ("skippedAfter", J.mkStrs ((es.filter (fun e => e.skip == .after || e.skip == .either)).map (·.key)))] ++ cbVerdict c))
 
 def handle (c : Json) : JE Json :=
   if J.strD c "kind" "" == "merge" then handleMerge c
